@@ -160,7 +160,10 @@ func c16BuildShared(seed uint64, history bool) *c16Shared {
 
 	for i, lay := range h2cLayouts {
 		p := gen.Fresh(r).P
-		for _, b := range [][]byte{oracle.EncC(p), oracle.EncC(oracle.Neg(p)), oracle.EncU(p), {0}, oracle.Bytes32(gen.Draw(r, oracle.N).X), oracle.Bytes32(oracle.N), append([]byte{2}, oracle.Bytes32(oracle.P)...), r.Bytes(33), r.Bytes(i)} {
+		hyb := oracle.EncU(p)
+		hyb[0] = 6 + byte(p.Y.Bit(0)) // SEC1 hybrid form of a valid point: if it is accepted at all, the input stays untouched
+
+		for _, b := range [][]byte{oracle.EncC(p), oracle.EncC(oracle.Neg(p)), oracle.EncU(p), hyb, {0}, oracle.Bytes32(gen.Draw(r, oracle.N).X), oracle.Bytes32(oracle.N), append([]byte{2}, oracle.Bytes32(oracle.P)...), r.Bytes(33), r.Bytes(i)} {
 			e, _ := layoutSlice(b, lay, 0x33)
 			sh.encs = append(sh.encs, e)
 		}
@@ -282,19 +285,32 @@ func c16Do(op int, st *c16Own, sh *c16Shared, r *gen.Rng) (name string, d uint64
 			return "HashToGroup(skip)", 0, true
 		}
 
-		return fmt.Sprintf("HashToGroup(msg%d,dst%d)", mi, di), digest(secp256k1.HashToGroup(M, D).Encode()), true
+		// the result belongs to the caller, who goes on working with it (concurrent callers with the same arguments included)
+		h := secp256k1.HashToGroup(M, D)
+		enc := h.Encode()
+		h.Double().Negate()
+
+		return fmt.Sprintf("HashToGroup(msg%d,dst%d)", mi, di), digest(enc, h.Encode()), true
 	case 21:
 		if len(D) == 0 {
 			return "EncodeToGroup(skip)", 0, true
 		}
 
-		return fmt.Sprintf("EncodeToGroup(msg%d,dst%d)", mi, di), digest(secp256k1.EncodeToGroup(M, D).Encode()), true
+		h := secp256k1.EncodeToGroup(M, D)
+		enc := h.Encode()
+		h.Add(E)
+
+		return fmt.Sprintf("EncodeToGroup(msg%d,dst%d)", mi, di), digest(enc, h.Encode()), true
 	case 22:
 		if len(D) == 0 {
 			return "HashToScalar(skip)", 0, true
 		}
 
-		return fmt.Sprintf("HashToScalar(msg%d,dst%d)", mi, di), digest(secp256k1.HashToScalar(M, D).Encode()), true
+		h := secp256k1.HashToScalar(M, D)
+		enc := h.Encode()
+		h.Square().Add(S)
+
+		return fmt.Sprintf("HashToScalar(msg%d,dst%d)", mi, di), digest(enc, h.Encode()), true
 	case 23:
 		return fmt.Sprintf("Scalar.Add(s%d)", si), digest(s.Add(S).Encode()), true
 	case 24:
@@ -944,17 +960,26 @@ func C16HashStorm(goroutines, calls int, out string) int {
 
 				switch (g + i/3) % 3 {
 				case 0:
-					if !bytes.Equal(secp256k1.HashToScalar(x.m, x.d).Encode(), x.h2s) {
+					h := secp256k1.HashToScalar(x.m, x.d)
+					if !bytes.Equal(h.Encode(), x.h2s) {
 						bad[g] = fmt.Sprintf("HashToScalar with a shared %d-byte DST returned a wrong value under concurrency", len(x.d))
 					}
+
+					h.Square() // the result is the caller's: it goes on working with it while others make the same call
 				case 1:
-					if !bytes.Equal(secp256k1.HashToGroup(x.m, x.d).Encode(), x.h2g) {
+					h := secp256k1.HashToGroup(x.m, x.d)
+					if !bytes.Equal(h.Encode(), x.h2g) {
 						bad[g] = fmt.Sprintf("HashToGroup with a shared %d-byte DST returned a wrong value under concurrency", len(x.d))
 					}
+
+					h.Double().Negate()
 				default:
-					if !bytes.Equal(secp256k1.EncodeToGroup(x.m, x.d).Encode(), x.e2g) {
+					h := secp256k1.EncodeToGroup(x.m, x.d)
+					if !bytes.Equal(h.Encode(), x.e2g) {
 						bad[g] = fmt.Sprintf("EncodeToGroup with a shared %d-byte DST returned a wrong value under concurrency", len(x.d))
 					}
+
+					h.Double().Double()
 				}
 			}
 		}(g)
